@@ -113,14 +113,15 @@ check("C12", "fault_enumeration",
       "reference comparison via the matching parser", "DESIGN.md §3 C12")
 
 
-check("C19", "exploration",
+check("C19", "fault_enumeration",
       "Project machine for gen: generated input mappings (1..5 classes / functions / argparse functions, or a JSON-schema "
       "file) x parse kind x eight emit kinds x name templates x import inference x prepend / imports-from-file; histories: "
       "gen on absent output, gen on the present output (must refuse), gen after a faulted gen (I/O error, torn close, "
       "crash at a rehearsed seam call) that left a torso, user deletion, --phase 1|2, restart. I1 compiles, I2 one symbol "
       "per entry named by the template, I3 __all__ exactly those names, I4 read-back interface (class/function/argparse "
       "output), I5 inferred imports bind every typing/SQLAlchemy name; always: I6 existing output refused with bytes, mtime "
-      "and seam log untouched, I7 nothing but the output path is written.",
+      "and seam log untouched, I7 nothing but the output path is written; on flagged plans every seam call of a gen is "
+      "faulted once per kind (error, crash, torn close) and I7 + 'gen again on the torso refuses' are judged after each.",
       "Sampled matrix; a gen that raises without writing is a refusal (most cells of the matrix refuse today), recorded in "
       "the evidence, not a violation; I4 not asserted for SQLAlchemy/JSON/pydantic output; argparse default cells are a "
       "listed known finding.",
